@@ -1,9 +1,9 @@
 SPECIFICATION Spec
 CONSTANTS
-  MaxN = 3
-  Templates <- TplC17d
-  Bundles <- NoBundle
-  Ctxs <- WideTightNone
+  MaxN = 2
+  Templates <- TplC18s
+  Bundles <- SameSubjectBundles
+  Ctxs <- Wide
   Reqs <- FullReq
   Tries <- One
   Hists <- NoHist
